@@ -19,7 +19,7 @@ chk("C14", "model_checking",
     "Reader.tla models the block reader's incremental offset bookkeeping; TLC checks it against the closed-form scan offsets for every bounded archive and every "
     "Next/SkipNext string, and every maximal behaviour is replayed on the real BlockReader over three source kinds with CID sequence, metadata, bytes at "
     "SourceOffset and source consumption compared.",
-    "Exhaustive within: <= 3 sections over 8 (13 thorough) blocks, 5 root lists incl. identity-CID roots, 4 containers, all choice strings. " + TB,
+    "Exhaustive within: <= 3 sections over 8 (13 thorough) blocks, 5 root lists incl. identity-CID roots, 6 containers incl. non-canonical headers, all choice strings, 6 source kinds (short reads, WithTrustedCAR). " + TB,
     "TLA+ state machine of BlockReader + TLC behaviours replayed on the real reader", "DESIGN.md §3 C14")
 chk("C02", "fault_enumeration",
     "Every proper prefix and every data/digest byte corruption of every TLC-enumerated archive is run through every verifying/scanning reader; TLC validates each recorded "
@@ -29,7 +29,7 @@ chk("C02", "fault_enumeration",
 chk("C03", "model_checking",
     "ArchiveCases.tla gives, for every bounded archive, the exact offset set every index kind must report for 13 probe CIDs; all index generation/loading entry points over "
     "three source kinds and the option matrix are compared with it and with the bytes at each offset.",
-    "Exhaustive within: <= 3 sections, two block alphabets, 5 root lists, 7 containers. " + TB,
+    "Exhaustive within: <= 3 sections, three block alphabets, 5 root lists, 8 containers incl. a non-canonical header; plus one archive of 70 000 sections. " + TB,
     "TLA+ operators as oracle, TLC-enumerated archives replayed into index generation", "DESIGN.md §3 C03")
 chk("C07", "model_checking",
     "ArchiveOps.tla defines read-only answers as functions of the sequential scan; every bounded archive x option set x front-end (NewReadOnly, OpenReadOnly, OpenReadable, supplied index) is queried "
@@ -53,7 +53,7 @@ chk("C11", "model_checking",
 chk("C10", "model_checking",
     "Transform.tla models wrap / extract / replace-roots as actions on an abstract file; TLC checks payload invariance and extract(wrap(x)) = x over the complete bounded behaviour tree, and every "
     "behaviour is replayed on real files with all bytes compared against the reference encoding after every step (and unchanged bytes on refusal).",
-    "Exhaustive within: files <= 2 sections over 6 blocks, 5 root lists, 6 containers incl. a null-padded CARv1, 11 operations, behaviours of 2 (3) steps. " + TB,
+    "Exhaustive within: files <= 2 sections over 6 blocks, 5 root lists, 8 containers incl. a null-padded CARv1 and non-canonical headers, 11 operations, behaviours of 2 (3) steps; plus WrapV1 of a 70 000-section archive. " + TB,
     "TLA+ action spec + TLC behaviours replayed on real files with byte comparison", "DESIGN.md §3 C10")
 chk("C20", "model_checking",
     "Deferred.tla models lazy creation, callback bookkeeping and the closed typestate; TLC checks Lazy/OnceFiresOnce on the complete bounded behaviour tree; every behaviour is replayed on the real "
@@ -67,7 +67,7 @@ chk("C06", "fault_enumeration",
     "recorded crash-point observations validated by TLC against a TLA+ relation; write-log trace validation against a TLA+ protocol spec", "DESIGN.md §3 C06")
 chk("C16", "fault_enumeration",
     "A transient write fault is injected at every write of a session and every persisted-byte count, followed by every continuation; TLC validates each observation against FaultObs!FaultSafe.",
-    "Exhaustive over fault points of 8 (16) storage sessions incl. a plain stream target, and over kernel short writes (RLIMIT_FSIZE) at every file offset 0..699 of 6 blockstore sessions incl. PutMany batches. " + TB,
+    "Exhaustive over fault points of 8 (16) storage sessions incl. a plain stream target, and over kernel short writes (RLIMIT_FSIZE) at every file offset 0..699 of 8 blockstore sessions incl. PutMany batches; two-fault sessions for both. " + TB,
     "recorded fault-point observations validated by TLC against a TLA+ relation", "DESIGN.md §3 C16")
 chk("C08", "model_checking",
     "Conc.tla models the lock discipline (one action per critical-section boundary) and is model-checked for conflict freedom, linearizability, dedupe and termination; real executions are bound to it three ways: "
@@ -92,7 +92,7 @@ chk("C19", "exploration",
 chk("C15", "model_checking",
     "Traversal.tla is an explicit DFS machine (selector, visit-once, link budget) over all small DAGs; its predicted load sequence agrees with the real engine (drift check) and every case is run through all "
     "traversal writers of both modules, with the observed loads as oracle for content/order and all announced sizes, counts, callbacks and Dump/Write compared.",
-    "Exhaustive within: DAGs over 4 nodes, 8 selectors (all, depth 1..3, 4 field paths), visit-once on/off, 3 budgets. " + TB,
+    "Exhaustive within: DAGs over 4 nodes, 8 selectors (all, depth 1..3, 4 field paths), visit-once on/off, 3 budgets; two (root, selector) pairs for the root module; one block under two codecs. " + TB,
     "TLA+ DFS model + TLC-enumerated DAGs replayed through the traversal writers", "DESIGN.md §3 C15")
 chk("C09", "exploration",
     "Parser.tla gives the scanner's termination/no-big-allocation argument (TLC, all token strings up to the bound) and the exact-limit matrix, which is run on every entry point; panics, hangs and allocation on "
